@@ -91,25 +91,40 @@ Definition failing (l : list (string * bool)) : string :=
   String.concat "" (map (fun p : string * bool => tag (snd p) (fst p)) l).
 
 (* ------------------------------------------------------------------ the property's own right-hand side *)
-Fixpoint qsum_by {A} (f : A -> Q) (l : list A) (acc : Q) : Q :=
-  match l with [] => acc | x :: r => qsum_by f r (Qred (acc + f x)) end.
+(* The sum over the residues of a code list, evaluated as  sum over table entries of
+   (occurrences of the code) x (entry's value): each entry's atoms are computed once. *)
+Record tentry := mkT { t_count : Q; t_mol : molecule; t_atoms : dict }.
+
+Definition count_code (k : string) (cs : list ascii) : Z :=
+  fold_left (fun n x => if String.eqb (code_key x) k then (n + 1)%Z else n) cs 0%Z.
+
+Definition tally (tab : table) (cs : list ascii) : list tentry :=
+  filter (fun t => negb (Qeq_bool (t_count t) 0))
+         (map (fun km : string * molecule =>
+                 mkT (inject_Z (count_code (fst km) cs)) (snd km) (f_atoms (m_labile (snd km)))) tab).
+
+Definition tsum (f : tentry -> Q) (l : list tentry) : Q :=
+  fold_left (fun acc t => Qred (acc + t_count t * f t)) l 0.
+
+Definition tally_exact (l : list tentry) : bool := forallb (fun t => mol_dyadic (t_mol t)) l.
+Definition tally_qscale (l : list tentry) : Q := tsum (fun t => Qabs (m_charge (t_mol t))) l.
 
 (* implementation's Sequence vs the sums over the table entries of its codes *)
-Definition spec_verdicts (exact : bool) (parts : list molecule) (o : molobs) : list (string * bool) :=
+Definition spec_verdicts (exact : bool) (l : list tentry) (o : molobs) : list (string * bool) :=
   match o with
   | ME _ => [("spec-raised", false)]
   | MO _ _ vol charge mass dmass ldens ndens labile natural =>
-      let qscale := qsum_by (fun p => Qabs (m_charge p)) parts 0 in
-      let total (a : atom) := qsum_by (fun p => dget0 (f_atoms (m_labile p)) a) parts 0 in
-      let present := flat_map (fun p => map fst (filter (fun kv : atom * Q => negb (Qeq_bool (snd kv) 0))
-                                                       (f_atoms (m_labile p)))) parts in
-      let sumvol := qsum_by m_vol parts 0 in
-      let summass := qsum_by m_mass parts 0 in
+      let qscale := tally_qscale l in
+      let total (a : atom) := tsum (fun t => dget0 (t_atoms t) a) l in
+      let present := flat_map (fun t => map fst (filter (fun kv : atom * Q => negb (Qeq_bool (snd kv) 0))
+                                                       (t_atoms t))) l in
+      let sumvol := tsum (fun t => m_vol (t_mol t)) l in
+      let summass := tsum (fun t => m_mass (t_mol t)) l in
+      let sumq := tsum (fun t => m_charge (t_mol t)) l in
       [("sum-cell_volume", relq vol sumvol);
-       ("sum-charge", if exact then exactq charge (qsum_by m_charge parts 0)
-                      else absq qscale charge (qsum_by m_charge parts 0));
+       ("sum-charge", if exact then exactq charge sumq else absq qscale charge sumq);
        ("sum-mass", relq mass summass);
-       ("sum-Dmass", relq dmass (qsum_by m_Dmass parts 0));
+       ("sum-Dmass", relq dmass (tsum (fun t => m_Dmass (t_mol t)) l));
        ("sum-atoms",
         (forallb (fun it : Q * frag =>
                     match snd it with
@@ -130,13 +145,9 @@ Definition seq_verdicts (E : aenv) (ts : tables) (ty name s : string) (o : molob
   | Some tab =>
       match sequence_of E tab (Some name) s, o with
       | FOk sm, MO _ _ _ _ _ _ _ _ _ _ =>
-          match parts_of tab (chars (clean s)) with
-          | Some parts =>
-              let exact := forallb mol_dyadic parts in
-              let qscale := qsum_by (fun p => Qabs (m_charge p)) parts 0 in
-              (mol_verdicts exact qscale (s_sequence sm) (s_mol sm) o ++ spec_verdicts exact parts o)%list
-          | None => [("parts", false)]
-          end
+          let l := tally tab (chars (clean s)) in
+          let exact := tally_exact l in
+          (mol_verdicts exact (tally_qscale l) (s_sequence sm) (s_mol sm) o ++ spec_verdicts exact l o)%list
       | FErr e, ME e' => [("error-kind", err_eqb e e')]
       | FOk _, ME _ => [("raised", false)]
       | FErr _, MO _ _ _ _ _ _ _ _ _ _ => [("should-raise", false)]
@@ -190,12 +201,8 @@ Definition loaded_verdicts (ts : tables) (ty : string) (raw : string) (x : fres 
   | FOk sm, MO _ _ _ _ _ _ _ _ _ _ =>
       match tables_get ts ty with
       | Some tab =>
-          match parts_of tab (chars (clean raw)) with
-          | Some parts =>
-              let exact := forallb mol_dyadic parts in
-              mol_verdicts exact (qsum_by (fun p => Qabs (m_charge p)) parts 0) (s_sequence sm) (s_mol sm) o
-          | None => [("parts", false)]
-          end
+          let l := tally tab (chars (clean raw)) in
+          mol_verdicts (tally_exact l) (tally_qscale l) (s_sequence sm) (s_mol sm) o
       | None => [("unknown-type", false)]
       end
   | FErr e, ME e' => [("error-kind", err_eqb e e')]
